@@ -61,7 +61,16 @@ def gen_world(r, leg):
 	ws = [len(m["pwm"][0]) for m in motifs]
 	n_seq = r.randint(1, 6 if leg == "real" else 3)
 	equal = leg == "sim" or r.chance(0.6)
-	if leg == "sim":
+	if r.chance(0.08):
+		# sequences exactly as long as the alphabet is large, motifs that fit
+		for m in motifs:
+			if len(m["pwm"][0]) > 4:
+				w_ = r.randint(2, 4)
+				m["pwm"] = [row[:w_] for row in m["pwm"]]
+		ws = [len(m["pwm"][0]) for m in motifs]
+		L0 = 4
+		equal = True
+	elif leg == "sim":
 		L0 = r.randint(max(ws), max(ws) + 40)
 	else:
 		L0 = r.randint(max(2, min(ws) // 2), 200)
@@ -90,7 +99,9 @@ def gen_world(r, leg):
 			for q in range(p, min(L, p + r.randint(1, 3))):
 				s[q] = "N"
 		seqs.append("".join(s))
-	cfg = {"threshold": r.choice([1e-1, 1e-2, 1e-3, 1e-4, 1e-5, 1e-6, 0.3]),
+	wmin = min(ws)
+	cfg = {"threshold": r.choice([1e-1, 1e-2, 1e-3, 1e-4, 1e-5, 1e-6, 0.3,
+			0.25, 0.0625, 4.0 ** -min(wmin, 8), 2.0 ** -r.randint(3, 12)]),
 		"bin_size": r.choice([0.01, 0.05, 0.1, 0.1, 0.5, 1.0]),
 		"eps": r.choice([1e-4, 1e-4, 1e-3]), "reverse_complement": r.chance(0.7)}
 	return {"motifs": motifs, "seqs": seqs, "cfg": cfg, "equal_length": equal}
